@@ -72,7 +72,8 @@ pub fn run(args: &Args) {
                           "workers": workers.unwrap_or(0), "fresh": fresh, "history": hist.iter().map(pos_json).collect::<Vec<_>>(), "history_keys": hist_hashes,
                           "root_key": format!("{:016x}", verif::artifact_hash(&a, &state)),
                           "history_len_before": verif::history_len(&a), "entries_before": verif::table_entries(&a), "cancel_at": cancel_at.map(|c| c as i64).unwrap_or(-1),
-                          "tag": st["tag"].as_str().unwrap_or(""), "api": "hook", "stop_after_ms": -1, "drop_receiver": false}));
+                          "tag": st["tag"].as_str().unwrap_or(""), "api": "hook", "stop_after_ms": -1, "drop_receiver": false,
+                          "mate": (0..=40usize).map(|k| i32::from(weechess_engine::eval::Evaluation::mate_in_ply(k))).collect::<Vec<_>>()}));
             out.flush();
             if let Some(s) = st["sched"].as_array() { verif::install_schedule(s[0].as_u64().unwrap(), s[1].as_f64().unwrap_or(0.5)); }
             verif::set_logging(ttlog || wb, wb);
